@@ -5,9 +5,10 @@ CONSTANTS
   MaxArgs = 1
   MaxSteps = 4
   MaxEx = 1
-  Outs = {"ok", "err", "panic", "pnil", "exit"}
+  Outs = {"ok", "err", "panic", "pnil", "exit", "nilfn"}
   Fins = {"none"}
   CancelOn = FALSE
+  DbStates = {"ok"}
 INVARIANTS TypeOK FinishedOnce CommitIffAllOk NoLaterStep NoBeginForEmpty RetRight GoneOnlyByExit
 PROPERTIES StepsOnlyInOpenTx ExecInsideTx FinishGuard NothingAfterAnswer
 VIEW View
